@@ -3780,6 +3780,107 @@ fn resolve_context_compile_cutpoint_full(
     Ok((from_seq.max(message_seq), Some(message_id.to_string())))
 }
 
+/// Run-linked append helpers re-exported for the verification harness (compiled only with
+/// `--cfg rip_verif`): histories containing selection / compiled / cursor frames can be produced
+/// without a provider. Pure pass-through to the crate-private appenders.
+#[cfg(rip_verif)]
+pub mod verif_hooks {
+    use super::*;
+
+    #[allow(clippy::too_many_arguments)]
+    pub fn append_selection_decided(
+        store: &ContinuityStore,
+        continuity_id: &str,
+        run_session_id: &str,
+        message_id: &str,
+        compiler_strategy: &str,
+        checkpoints: Vec<(String, String, String, u64)>,
+        reason: Option<serde_json::Value>,
+    ) -> Result<String, String> {
+        let compaction_checkpoints: Vec<rip_kernel::ContextSelectionCompactionCheckpointV1> =
+            checkpoints
+                .into_iter()
+                .map(
+                    |(checkpoint_id, summary_kind, summary_artifact_id, to_seq)| {
+                        rip_kernel::ContextSelectionCompactionCheckpointV1 {
+                            checkpoint_id,
+                            summary_kind,
+                            summary_artifact_id,
+                            to_seq,
+                        }
+                    },
+                )
+                .collect();
+        store.append_context_selection_decided(
+            continuity_id,
+            ContextSelectionDecidedPayload {
+                run_session_id: run_session_id.to_string(),
+                message_id: message_id.to_string(),
+                compiler_id: "rip.context_compiler.v1".to_string(),
+                compiler_strategy: compiler_strategy.to_string(),
+                limits: serde_json::json!({}),
+                compaction_checkpoint: compaction_checkpoints.last().cloned(),
+                compaction_checkpoints,
+                resets: Vec::new(),
+                reason,
+                actor_id: "user".to_string(),
+                origin: "cli".to_string(),
+            },
+        )
+    }
+
+    pub fn append_compiled(
+        store: &ContinuityStore,
+        continuity_id: &str,
+        run_session_id: &str,
+        bundle_artifact_id: &str,
+        compiler_strategy: &str,
+        from_seq: u64,
+        from_message_id: Option<String>,
+    ) -> Result<String, String> {
+        store.append_context_compiled(
+            continuity_id,
+            ContextCompiledPayload {
+                run_session_id: run_session_id.to_string(),
+                bundle_artifact_id: bundle_artifact_id.to_string(),
+                compiler_id: "rip.context_compiler.v1".to_string(),
+                compiler_strategy: compiler_strategy.to_string(),
+                from_seq,
+                from_message_id,
+                actor_id: "user".to_string(),
+                origin: "cli".to_string(),
+            },
+        )
+    }
+
+    #[allow(clippy::too_many_arguments)]
+    pub fn append_cursor_updated(
+        store: &ContinuityStore,
+        continuity_id: &str,
+        provider: &str,
+        endpoint: Option<String>,
+        model: Option<String>,
+        cursor: Option<serde_json::Value>,
+        action: &str,
+        run_session_id: Option<String>,
+    ) -> Result<String, String> {
+        store.append_provider_cursor_updated(
+            continuity_id,
+            ProviderCursorUpdatedPayload {
+                provider: provider.to_string(),
+                endpoint,
+                model,
+                cursor,
+                action: action.to_string(),
+                reason: None,
+                run_session_id,
+                actor_id: "user".to_string(),
+                origin: "cli".to_string(),
+            },
+        )
+    }
+}
+
 fn index_path(data_dir: &Path) -> PathBuf {
     data_dir.join("continuities").join("index.json")
 }
